@@ -14,7 +14,7 @@ open(p,'w').write(s.replace(o,n,1))
 PY
 [ $? -ne 0 ] && { rm -rf "$W"; exit 3; }
 (cd "$W/repo" && GOFLAGS=-mod=mod GOPROXY=off go build ./... 2>&1 | head -5)
-out=$(cd /verif && ./bin/govc check -prop $P -repo "$W/repo" -verif "$W/verif" 2>&1); r=$?
+out=$(cd /verif && ${GOVC:-./bin/govc} check -prop $P -repo "$W/repo" -verif "$W/verif" 2>&1); r=$?
 echo "[$P rc=$r]"; echo "$out" | grep -E 'VIOLATION|UNDECIDED|KNOWN' | head -6 | sed "s|$W||g"; echo "$out" | tail -1
 if [ "${SHOW_REPLAY:-}" = 1 ]; then
   for f in "$W"/verif/replays/$P/*.json; do [ -f "$f" ] && python3 -c "
